@@ -36,14 +36,23 @@ class NameMappingRequest(LocatedRequest[Optional[KeyPath]]):
     generated_key: Key
 
 
+def _to_builtin_key(key: Key) -> Key:
+    # key is rendered to generated code via repr(), that can be overridden by subclass (e.g. member of `class K(str, Enum)`)
+    if isinstance(key, str) and type(key) is not str:
+        return str.__str__(key)
+    if isinstance(key, int) and type(key) is not int:
+        return int.__int__(key)
+    return key
+
+
 def resolve_map_result(generated_key: Key, map_result: MapResult) -> Optional[KeyPath]:
     if map_result is None:
         return None
     if isinstance(map_result, (str, int)):
-        return (map_result, )
+        return (_to_builtin_key(map_result), )
     if isinstance(map_result, EllipsisType):
         return (generated_key,)
-    return tuple(generated_key if isinstance(key, EllipsisType) else key for key in map_result)
+    return tuple(generated_key if isinstance(key, EllipsisType) else _to_builtin_key(key) for key in map_result)
 
 
 class NameMappingProvider(MethodsProvider, ABC):
